@@ -1,7 +1,7 @@
 """C25 Only properly addressed and permitted requests are answered while advertising (connect requests)."""
 from .lib.match import *
 
-SELECT = r'^bluetoe::link_layer::details::advertising_type_base::|^bluetoe::link_layer::(connectable_undirected_advertising|connectable_directed_advertising|scannable_undirected_advertising|non_connectable_undirected_advertising)::impl::(is_valid_connect_request|is_valid_scan_request)$|^bluetoe::link_layer::details::advertiser::handle_adv_receive$|^bluetoe::link_layer::details::white_list_implementation::(is_connection_request_in_filter|is_scan_request_in_filter)$'
+SELECT = r'^bluetoe::link_layer::details::advertising_type_base::|^bluetoe::link_layer::(connectable_undirected_advertising|connectable_directed_advertising|scannable_undirected_advertising|non_connectable_undirected_advertising)::impl::(is_valid_connect_request|is_valid_scan_request)$|^bluetoe::link_layer::details::advertiser::|^bluetoe::link_layer::details::white_list_implementation::(is_connection_request_in_filter|is_scan_request_in_filter)$'
 UNITS = lambda u: u in ('w_inst_ll',) or u.startswith('t_link_layer_ll_adv') or u.startswith('t_link_layer_ll_connecting') or u.startswith('t_link_layer_white')
 META = {
     'level': 'decision-table extraction for the accept-a-connection decision: the conjuncts of advertising_type_base::is_valid_connect_request (PDU memory size for 34 bytes, length field 34, PDU type 0x5, '
@@ -81,6 +81,29 @@ def run(chk, facts, tier):
     chk.rule('non-connectable-false', 'scannable and non-connectable advertising never accept a connect request', floor=2)
     chk.rule('accept-needs-valid-and-filter', 'handle_adv_receive returns true only behind is_valid_connect_request(..) and is_connection_request_in_filter(address from InitA, TxAdd)', floor=2)
     chk.rule('filter-semantics', 'software white list: request accepted exactly when !filter || is_in_white_list(addr)', floor=2)
+    chk.rule('on-air-type-decides', 'advertiser with several advertising types: received requests are judged by selected_ (the type of the PDU that was transmitted); proposal_ (the type requested for the next '
+             'advertising event) is only assigned, copied into selected_ when a PDU is built, or compared with selected_', floor=1)
+    n_sites = 0
+    for fn in facts.functions:
+        if fn.kind != 'pattern' or not fn.q.startswith('bluetoe::link_layer::details::advertiser::'):
+            continue
+        for n in fn.body.walk():
+            if not (n.k in REF_KINDS and n.n == 'proposal_'):
+                continue
+            n_sites += 1
+            par = n.parent
+            while par is not None and par.k in ('ImplicitCastExpr', 'ParenExpr'):
+                par = par.parent
+            okp = False
+            if par is not None and par.k == 'BinaryOperator' and par.o == '=':
+                okp = (strip_casts(par.c[0]) is n) or is_name(par.c[0], 'selected_')
+            elif par is not None and par.k == 'BinaryOperator' and par.o in ('==', '!='):
+                other = par.c[1] if strip_casts(par.c[0]) is n else par.c[0]
+                okp = is_name(other, 'selected_') or fn.name == 'change_advertising'
+            chk.instance('on-air-type-decides', fn, 'proposal_ used in %s: %s' % (fn.name, (par.text()[:60] if par is not None else '?')), okp,
+                         '' if okp else 'the advertising type requested for the *next* event is used in %s(): a request received in answer to the PDU on air is judged by another advertising type (e.g. a CONNECT_IND from any device accepted while a directed or scannable PDU was sent)' % fn.name,
+                         node=n, key='proposal_ in %s/%s' % (fn.name, (par.o if par is not None and par.k == 'BinaryOperator' else (par.k if par is not None else '?'))))
+    chk.require(n_sites >= 3, 'advertiser: uses of proposal_ not found (%d)' % n_sites)
     AB = 'bluetoe::link_layer::details::advertising_type_base::'
     for fn in variants(facts, AB + 'is_valid_connect_request', chk):
         got = classify(conjuncts(fn))
